@@ -80,6 +80,13 @@ func c04Times(a *vref.VAsset, r *vref.VRep, c c04Cfg, n int64) (name string, lo,
 		segTime = r.LiveStart(n)
 		endLoMS = vref.TicksToMSCeil(r.LiveEnd(n), r.TS)
 		endHiMS = endLoMS
+		if r.LoopMismatch {
+			// the last segment of a track shorter than the loop ends before the loop does: "segment end" may be read as the
+			// end of its samples or as the instant the next segment starts
+			if x := vref.TicksToMSCeil(r.LiveStart(n+1), r.TS); x > endHiMS {
+				endHiMS = x
+			}
+		}
 	}
 	tmpl := r.MediaTmpl
 	if c.byTime && r.Kind != "image" {
@@ -155,8 +162,8 @@ func TestVerifC04(t *testing.T) {
 			sort.Strings(ids)
 			for _, id := range ids {
 				r := a.Reps[id]
-				if r.LoopMismatch {
-					continue // availability instants of a track whose duration differs from the loop are not defined by the statement
+				if r.LoopMismatch && r.LoopOverride == 0 {
+					continue // a track longer than the loop: not modelled
 				}
 				modes := []bool{false, true}
 				if r.Kind == "image" {
